@@ -2296,6 +2296,34 @@ emit_mixed(const struct op *ops, int n, int f, int bound, int lives) {
   scns[nscn - 1].mixed = 1;
   n_mixed++;
 }
+/* explicit family "counters": two observed resources (one static, one dynamic), changes on each of them in both orders so that the
+ * counter file is rewritten for a resource that is not the last one listed, then the judged restart (and, within the bound, a kill
+ * at every tracked call of the last life): the first Observe value after the restart must exceed the last one sent, for both */
+static int n_counters;
+static void
+counters_family(int thorough) {
+  static const int freqs[3] = {1, 2, 10};
+  for (int fi = 0; fi < (thorough ? 3 : 2); fi++)
+    for (int o = 0; o < 2; o++) {
+      int a = o ? R_D1 : R_S1, b = o ? R_S1 : R_D1;
+      struct op h[MAXOPS];
+      int n = 0;
+      h[n++] = PUT(R_D1, 0);
+      h[n++] = REG(P_1, R_S1);
+      h[n++] = REG(P_1, R_D1);
+      h[n++] = CHG(a, 1);
+      h[n++] = CHG(b, 1);
+      h[n++] = CHG(a, 2);
+      emit(h, n, freqs[fi], 1, 2);
+      n_counters++;
+      h[n++] = CHG(b, 1);
+      if (n <= MAXOPS) {
+        emit(h, n, freqs[fi], thorough ? 1 : 0, 2);
+        n_counters++;
+      }
+    }
+}
+
 static void
 mixed_family(int thorough) {
   static const int freqs[3] = {1, 2, 10};
@@ -2538,6 +2566,8 @@ main(int argc, char **argv) {
     generate(freqs[fi], maxd, policy);
   if (!getenv("C17_NO_MIXED"))
     mixed_family(Tq);
+  counters_family(Tq);
+  vx_ev_int("histories_counters_family", n_counters);
   if (getenv("C17_ONLY_MIXED")) { /* experiments: the mixed-transport family alone */
     int k = 0;
     for (int i = 0; i < nscn; i++)
